@@ -193,6 +193,9 @@ def gen(rnd: random.Random, opts: dict) -> Design:
         if D.deford[a] > D.deford[b2]:
             a, b2 = b2, a
         D.sb.append((a, b2, rnd.random() < 0.4))
+    if rnd.random() < opts.get("p_mixed", 0.25):
+        add_mixed_chain_pattern(D, rnd)
+        keys = list(D.bodies)
     for k in keys:  # Forwarder-style ready: ready = bit | other.run with other.schedule_before(this)
         if rnd.random() < opts.get("p_forwarder", 0.15):
             earlier = [x for x in keys if D.deford[x] < D.deford[k] and x != k]
@@ -201,6 +204,40 @@ def gen(rnd: random.Random, opts: dict) -> Design:
                 D.bodies[k].rdy_or = o
                 D.sb.append((o, k, False))
     return D
+
+
+def add_mixed_chain_pattern(D, rnd):
+    """Forced layout class: T1 -> N -> M and T2 -> (If: N / Else: M) with N nonexclusive and M exclusive. The pair of chains through the
+    shared nonexclusive ancestor N is legitimately not a conflict, the pair (T1 via N, T2 direct) is: T1 and T2 must conflict."""
+    tops = [b for b in D.order if b.kind == "t"]
+    if len(tops) < 2:
+        return False
+    t1, t2 = rnd.sample(tops, 2)
+    n_idx, m_idx = D.nm, D.nm + 1
+    D.nm += 2
+    D.meth.append(dict(has_in=False, nonex=True, validate=None, combiner=None, single_caller=False))
+    D.meth.append(dict(has_in=rnd.random() < 0.5, nonex=False, validate=None, combiner=None, single_caller=False))
+    for idx in (n_idx, m_idx):
+        b = B("m", idx)
+        b.pos = ((("body", "m", idx), 0),)
+        D.nbits += 1
+        b.rdy = D.nbits - 1
+        D.bodies[b.key] = b
+        D.order.append(b)
+        D.deford[b.key] = len(D.deford)
+    nb = D.bodies[("m", n_idx)]
+    s0 = new_site(D, nb, m_idx)
+    nb.stmts.append(("call", s0))
+    s1 = new_site(D, t1, n_idx)
+    t1.stmts.append(("call", s1))
+    sid = D.struct
+    D.struct += 1
+    D.nbits += 1
+    cbit = D.nbits - 1
+    s2 = new_site(D, t2, n_idx, pos=t2.pos + ((("if", sid), 0),))
+    s3 = new_site(D, t2, m_idx, pos=t2.pos + ((("if", sid), 1),))
+    t2.stmts.append(("if", sid, [cbit], [[("call", s2)]], [("call", s3)]))
+    return True
 
 
 def walk(stmts):
@@ -935,3 +972,183 @@ def run_design(rec: Rec, D, A, rnd: random.Random, case: dict, sched: str = "eag
     except Exception:
         pass
     return True
+
+
+# ------------------------------------------------------------------------------------------------------------------
+# C11: acceptance / rejection
+def elaborate_outcome(D, sched="eager"):
+    try:
+        e, sim, recorder, top = build(D, sched)
+        return "accepted", None
+    except Exception as ex:
+        return classify_exception(ex), ex
+
+
+def new_site(D, caller, callee, pos=None, en=None):
+    s = Site()
+    s.sid = D.sid
+    D.sid += 1
+    s.callee, s.caller, s.en, s.via = callee, caller, en, 0
+    s.pos = caller.pos if pos is None else pos
+    if D.meth[callee]["has_in"]:
+        s.arg = ("const", 5)
+    else:
+        s.arg = None
+    D.sites.append(s)
+    return s
+
+
+def mutate_invalid(D, A, rnd):
+    """Apply ONE invalidating mutation to a well-formed design. Returns (class, description) or None if not applicable."""
+    kinds = ["double_direct", "double_parallel_ifs", "selfcall", "call_cycle", "prio_cycle", "single_caller", "single_caller_indirect", "deadlock", "double_via_alias"]
+    rnd.shuffle(kinds)
+    bodies = list(D.bodies.values())
+    for kind in kinds:
+        if kind in ("double_direct", "double_via_alias"):
+            cand = [s for s in D.sites if not D.meth[s.callee]["nonex"]]
+            if not cand:
+                continue
+            s = rnd.choice(cand)
+            n = new_site(D, s.caller, s.callee, pos=s.pos if s.en is None else s.pos[:-1])
+            if kind == "double_via_alias":
+                n.via = 1
+            place_after(D, s, ("call", n))
+            return "double", f"{kind}: second call of M{s.callee} next to site {s.sid}"
+        if kind == "double_parallel_ifs":
+            cand = [s for s in D.sites if not D.meth[s.callee]["nonex"] and s.en is None]
+            if not cand:
+                continue
+            s = rnd.choice(cand)
+            # a second call of the same method under a *parallel* If (not an alternative of the same structure)
+            sid = D.struct
+            D.struct += 1
+            D.nbits += 1
+            cbit = D.nbits - 1
+            n = new_site(D, s.caller, s.callee, pos=s.pos + ((("if", sid), 0),))
+            place_after(D, s, ("if", sid, [cbit], [[("call", n)]], None))
+            return "double", f"double_parallel_ifs: M{s.callee} called again under a separate If"
+        if kind == "selfcall":
+            ms = [b for b in bodies if b.kind == "m"]
+            if not ms:
+                continue
+            b = rnd.choice(ms)
+            n = new_site(D, b, b.idx)
+            b.stmts.append(("call", n))
+            return "selfcall", f"selfcall: M{b.idx} calls itself"
+        if kind == "call_cycle":
+            cand = [s for s in D.sites if s.caller.kind == "m"]
+            if not cand:
+                continue
+            s = rnd.choice(cand)
+            callee_body = D.bodies[("m", s.callee)]
+            n = new_site(D, callee_body, s.caller.idx)
+            callee_body.stmts.append(("call", n))
+            return "selfcall", f"call_cycle: M{s.caller.idx} -> M{s.callee} -> M{s.caller.idx}"
+        if kind == "prio_cycle":
+            T = A.T
+            if len(T) < 2:
+                continue
+            t1, t2 = rnd.sample(T, 2)
+            D.confl.append((t1, t2, Priority.LEFT))
+            D.confl.append((t1, t2, Priority.RIGHT))
+            return "prio", f"prio_cycle: {t1} and {t2} prioritised both ways"
+        if kind in ("single_caller", "single_caller_indirect"):
+            cand = []
+            for j in range(D.nm):
+                direct = {s.caller.key for s in D.sites if s.callee == j}
+                ts = A.tfor(("m", j))
+                if len(ts) >= 2 and ((kind == "single_caller" and sum(1 for s in D.sites if s.callee == j) >= 2) or
+                                     (kind == "single_caller_indirect" and sum(1 for s in D.sites if s.callee == j) == 1)):
+                    cand.append(j)
+            if not cand:
+                continue
+            j = rnd.choice(cand)
+            D.meth[j]["single_caller"] = True
+            return "single_caller", f"{kind}: M{j} marked single_caller but reached from {len(A.tfor(('m', j)))} transactions"
+        if kind == "deadlock":
+            pairs = [(t1, t2) for t1 in A.T for t2 in A.conf[t1] if D.deford[t1] < D.deford[t2]]
+            if not pairs:
+                continue
+            t1, t2 = rnd.choice(pairs)
+            D.sb.append((t1, t2, True))
+            return "deadlock", f"deadlock: {t2} made ready-dependent on conflicting {t1}"
+    return None
+
+
+def place_after(D, site, stmt):
+    def rec(stmts):
+        for i, st in enumerate(stmts):
+            if st[0] == "call" and st[1] is site:
+                stmts.insert(i + 1, stmt)
+                return True
+            if st[0] == "if":
+                if any(rec(a) for a in st[3]) or (st[4] is not None and rec(st[4])):
+                    return True
+            elif st[0] == "switch":
+                if any(rec(a) for _, a in st[3]) or (st[4] is not None and rec(st[4])):
+                    return True
+            elif st[0] == "fsm":
+                if any(rec(a) for a in st[2]):
+                    return True
+            elif st[0] == "body":
+                if rec(st[1].stmts):
+                    return True
+        return False
+    for b in D.order:
+        if rec(b.stmts):
+            return
+    raise AssertionError("site not found")
+
+
+def check_c11(rec: Rec, D, rnd, case):
+    """Unrepaired random design: the reference predicts accept / reject; then repaired + single invalidating mutation."""
+    A = analyse(D)
+    reasons = invalid_reasons(A)
+    outcome, ex = elaborate_outcome(D)
+    rec.count("elaborations")
+    if A.same_trans_conflict and not reasons:
+        rec.count("designs_with_conflict_inside_one_transaction(not_judged_by_C11)")
+    elif reasons:
+        for r in reasons:
+            rec.count("generated_invalid:" + r)
+        rec.check("C11:ill_formed_design_raises:" + reasons[0], outcome != "accepted", case=dict(case, reference_reasons=reasons, ir=describe(D)),
+                  detail={"outcome": outcome})
+        if outcome != "accepted" and outcome not in reasons and not outcome.startswith("conflict_within"):
+            rec.note(f"design {case.get('design')}: rejected as {outcome}, reference expected {reasons}")
+            rec.count("rejections_with_other_class_than_predicted")
+    else:
+        rec.check("C11:well_formed_design_elaborates", outcome == "accepted", case=dict(case, ir=describe(D)), detail={"outcome": outcome, "exception": repr(ex)[:300]})
+        rec.count("generated_valid")
+        excl_multi = 0
+        for j in range(D.nm):
+            if not D.meth[j]["nonex"]:
+                for k in D.bodies:
+                    n = sum(1 for c in A.ch[k] if c[-1].callee == j)
+                    if n >= 2:
+                        excl_multi += 1
+        if excl_multi:
+            rec.count("accepted_designs_calling_an_exclusive_method_several_times_on_exclusive_paths")
+        if any(D.meth[j]["nonex"] and sum(1 for c in A.ch[k] if c[-1].callee == j) >= 2 for j in range(D.nm) for k in D.bodies):
+            rec.count("accepted_designs_calling_a_nonexclusive_method_several_times")
+    # single-defect mutants of the repaired design
+    A2 = repair(D, rnd)
+    if A2 is None:
+        rec.count("unrepairable")
+        return
+    outcome2, ex2 = elaborate_outcome(D)
+    rec.check("C11:well_formed_design_elaborates", outcome2 == "accepted", case=dict(case, repaired=True, ir=describe(D)), detail={"outcome": outcome2, "exception": repr(ex2)[:300]})
+    rec.count("elaborations")
+    mut = mutate_invalid(D, A2, rnd)
+    if mut is None:
+        return
+    klass, desc = mut
+    A3 = analyse(D)
+    r3 = invalid_reasons(A3)
+    if not r3:
+        rec.harness_error(f"mutation '{desc}' did not make the reference consider the design invalid (design {case.get('design')})")
+        return
+    outcome3, _ = elaborate_outcome(D)
+    rec.count("elaborations")
+    rec.count("mutated_invalid:" + desc.split(":")[0])
+    rec.nontrivial("mut|" + desc.split(":")[0] + "|" + outcome3.split(":")[0])
+    rec.check("C11:ill_formed_design_raises:" + klass, outcome3 != "accepted", case=dict(case, mutation=desc, ir=describe(D)), detail={"outcome": outcome3})
